@@ -164,8 +164,11 @@ impl MatchLevel for &TopicFilterLevel {
 fn match_level_impl(
     subset_level: &TopicFilterLevel,
     superset_level: &TopicFilterLevel,
-    _index: usize,
+    index: usize,
 ) -> bool {
+    // wildcards do not match first level that starts with `$` [MQTT-4.7.2-1]
+    let system = index == 0 && matches!(subset_level, TopicFilterLevel::System(_));
+
     match superset_level {
         TopicFilterLevel::Normal(rhs) => {
             matches!(subset_level, TopicFilterLevel::Normal(lhs) if lhs == rhs)
@@ -174,8 +177,10 @@ fn match_level_impl(
             matches!(subset_level, TopicFilterLevel::System(lhs) if lhs == rhs)
         }
         TopicFilterLevel::Blank => *subset_level == TopicFilterLevel::Blank,
-        TopicFilterLevel::SingleWildcard => *subset_level != TopicFilterLevel::MultiWildcard,
-        TopicFilterLevel::MultiWildcard => true,
+        TopicFilterLevel::SingleWildcard => {
+            !system && *subset_level != TopicFilterLevel::MultiWildcard
+        }
+        TopicFilterLevel::MultiWildcard => !system,
     }
 }
 
